@@ -624,3 +624,52 @@ def b_static(tier, seed):
                 if not d <= 1e-5:
                     failures.append({"what": f"{name}: equilibrium {i} of the rigidly moved problem is not the moved equilibrium (xi={xi})", "input": {"seed": seed, "A": A.tolist(), "c": c.tolist()}, "detail": f"{d:.3e}"})
     return {"cases": cases, "distinct": cases, "failures": failures[:12], "bound": f"1 contact scene (Newton {n_steps} load steps, Riks up to load 0.3) + {len(variants)} cantilever rod formulation(s) x 3 load steps, each also rigidly moved by one random (A, c); residuals recomputed from System methods, tolerance 1e-7 with newton_atol = 1e-10"}
+
+
+# --------------------------------------------------------------------------- the loads are objective (function level)
+@contract("C23", "loads/rigidly moving the body and the load leaves the generalized force unchanged", samples=2, timeout=120)
+def c_loads_objective(k):
+    """Frame indifference of the computed equilibria (bounded stand-in above) rests, function by function, on the residual
+    being objective.  For the elastic part that is C10, for the joints C05; the external loads are under contract here:
+    Force / Moment (given in the inertial basis) and B_Force / B_Moment (given in the body basis) on a real RigidBody with
+    symbolic configuration.  The body is moved by (c, R), an inertial load is rotated with it, a body-fixed one is not:
+    the rotational part of the generalized force (body-fixed angular velocity coordinates) is unchanged, the translational
+    part (inertial velocity coordinates) turns with R.  Virtual work identity as well: h . u = F . v_P + M . omega."""
+    import cardillo.math.rotations as rot
+    from cardillo.discrete.rigid_body import RigidBody
+    from cardillo.forces import B_Force, B_Moment, Force, Moment
+
+    k.covers(Force.h, B_Force.h, Moment.h, B_Moment.h)
+    q = k.reals("q", 7, sample=lambda g: np.concatenate([g.normal(size=3), g.normal(size=4)]))
+    k.assume(q[3:] @ q[3:] > 0)
+    cvec, Pq = k.reals("c", 3), k.reals("Pq", 4)
+    k.assume(Pq @ Pq > 0)
+    R = rot.Exp_SO3_quat(Pq)
+    q_m = np.concatenate([cvec + R @ q[:3], rot.quatprod(Pq, q[3:])])
+    u = k.reals("u", 6)
+    L = k.reals("load", 3)
+    B = k.reals("B_r_CP", 3)
+
+    def body():
+        b = RigidBody(1.0, np.eye(3))
+        b.qDOF, b.uDOF = np.arange(7), np.arange(6)
+        return b
+
+    b0, b1 = body(), body()
+    A0 = b0.A_IB(0.0, q)
+    omega_I = A0 @ u[3:]
+    for name, make, inertial, is_force in (
+        ("Force", lambda b, l: Force(l, b, B_r_CP=B), True, True),
+        ("B_Force", lambda b, l: B_Force(l, b, B_r_CP=B), False, True),
+        ("Moment", lambda b, l: Moment(l, b), True, False),
+        ("B_Moment", lambda b, l: B_Moment(l, b), False, False),
+    ):
+        h0 = np.asarray(make(b0, L).h(0.0, q, u), dtype=object)
+        h1 = np.asarray(make(b1, (R @ L) if inertial else L).h(0.0, q_m, u), dtype=object)
+        k.prove_eq(f"{name}: rotational part of the generalized force is unchanged by the rigid motion", h1[3:], h0[3:], tol=1e-9)
+        k.prove_eq(f"{name}: translational part turns with the rigid motion", h1[:3], R @ h0[:3], tol=1e-9)
+        load_I = L if inertial else A0 @ L
+        if is_force:
+            k.prove_eq(f"{name}: virtual work h . u = F . v_P", h0 @ u, load_I @ b0.v_P(0.0, q, u, B_r_CP=B), tol=1e-9)
+        else:
+            k.prove_eq(f"{name}: virtual work h . u = M . omega", h0 @ u, load_I @ omega_I, tol=1e-9)
